@@ -1,7 +1,7 @@
 """The command-line family: the REAL CLI main of the repository (built as a bin target of the harness
 from /repo/bigtools/src/bin/bigtools.rs) is driven through argv; Python only builds argv, moves files
 and parses text back into records (plumbing).  Every judgement is a TLA+ formula evaluated by TLC."""
-import json, os, struct, subprocess, random, concurrent.futures
+import json, os, re, struct, subprocess, random, concurrent.futures
 from pyverif.core import *
 from pyverif.image import chrom_name
 
@@ -581,6 +581,27 @@ def c17_main():
         rr = tlc("ChunkPool", cfgname, os.path.join(run.wd, "pool_" + cfgname[:-4]), workers=4, timeout=1800, collect_replays=False)
         tlc_must_pass(rr, "ChunkPool.tla (%s)" % cfgname)
         run.add_tlc(cfgname[:-4], rr)
+    # ... for ANY number of ranges and workers: ChunkPoolInd.tla (the queue as the index of its head) - its invariant is proved inductive
+    # with TLAPS (58 obligations, SMT + PTL back ends, from an empty cache) and implies WaitSafe and ExactlyOnce; TLC checks that ChunkPool.tla
+    # refines it.  An unproved obligation is a defect of the abstract model or of the proof script: a tool error, never a violation of C17
+    for cfgname in ("MC_ChunkPool_refine_a.cfg", "MC_ChunkPool_refine_b.cfg", "MC_ChunkPool_refine_c.cfg"):
+        rr = tlc("MC_ChunkPool_refine", cfgname, os.path.join(run.wd, "pool_" + cfgname[:-4]), workers=4, timeout=900, collect_replays=False)
+        tlc_must_pass(rr, "ChunkPool.tla refines ChunkPoolInd.tla (%s)" % cfgname)
+        run.add_tlc(cfgname[:-4], rr)
+    import shutil as _sh
+    exe = _sh.which("tlapm")
+    if not exe:
+        raise ToolError("tlapm is not on PATH")
+    t0 = time.time()
+    try:
+        pp = subprocess.run([exe, "--threads", "4", "--cache-dir", os.path.join(run.wd, "tlaps_cache"), "ChunkPoolIndProof.tla"], cwd=SPEC, stdout=subprocess.PIPE, stderr=subprocess.STDOUT, text=True, timeout=1500)
+    except subprocess.TimeoutExpired:
+        raise ToolError("tlapm timed out on ChunkPoolIndProof.tla")
+    mm = re.search(r"All (\d+) obligations? proved", pp.stdout)
+    if not mm:
+        raise ToolError("tlapm did not prove ChunkPoolIndProof.tla:\n" + pp.stdout[-1500:])
+    run.cov["tlaps_proof"] = {"module": "ChunkPoolIndProof", "obligations_proved": int(mm.group(1)), "wall_s": round(time.time() - t0, 1),
+                              "theorems": "IndInv inductive for any K, W, Fail; IndInv => WaitSafe; IndInv => ExactlyOnce; Spec => [](WaitSafe /\\ ExactlyOnce)"}
     # the chunk pool as the real tool ran it (implementation -> ChunkPool.tla)
     traced = []
     for o in obs:
